@@ -7,7 +7,8 @@ A case is `classes <hex>…` (the class registry of the build, in `ClassDef` lis
 `t k` / `s pos byte` / `tall` / `sx pos` / `layout` lines about the archive just written.
 
 items (prefix notation): `p <prim> <nat>` | `r <hex>` | `s <hex>` | `op <lbl>` | `sp <lbl>` |
-`pos <lbl>` | `obj <lbl> <classname-hex> <n> <n items>` | `v <self> <value>`;  `-` is the empty byte string.
+`pos <lbl>` | `obj <lbl> <classname-hex> <n> <n items>` (read back with `ArchiveObject`; `objt`: with `ReadObject<T>()`;
+`objp`: with the polymorphic `ReadObject()`) | `v <self> <value>`;  `-` is the empty byte string.
 values: `n` | `i <nat>` | `f <nat>` | `c <nat>` | `s <hex>` | `k0` | `k <hex>` | `vec <hex>` | `l <lbl>` |
 `ca <holder> <refcount> <n> (<self> <value>)*n` | `car <holder>`.  Read-backs print elements without `<self>`. -/
 namespace Driver.Archive
@@ -61,7 +62,13 @@ partial def parseItem : List String → Option (Item × List String)
   | "pos" :: l :: r => do some (.position (← l.toNat?), r)
   | "obj" :: l :: c :: n :: r => do
     let (body, r') ← parseN (← n.toNat?) r
-    some (.object (← l.toNat?) (← bytes? c) body, r')
+    some (.object .into (← l.toNat?) (← bytes? c) body, r')
+  | "objt" :: l :: c :: n :: r => do
+    let (body, r') ← parseN (← n.toNat?) r
+    some (.object .typed (← l.toNat?) (← bytes? c) body, r')
+  | "objp" :: l :: c :: n :: r => do
+    let (body, r') ← parseN (← n.toNat?) r
+    some (.object .poly (← l.toNat?) (← bytes? c) body, r')
   | _ => none
 partial def parseN : Nat → List String → Option (List Item × List String)
   | 0, r => some ([], r)
@@ -116,7 +123,7 @@ partial def showItem : Item → String
   | .ptr false l => s!"op {l}"
   | .ptr true l => s!"sp {l}"
   | .position l => s!"pos {l}"
-  | .object l c body => s!"obj {l} {toHex c} {body.length}" ++ (if body.isEmpty then "" else " " ++ showItems body)
+  | .object m l c body => s!"{match m with | .into => "obj" | .typed => "objt" | .poly => "objp"} {l} {toHex c} {body.length}" ++ (if body.isEmpty then "" else " " ++ showItems body)
 partial def showItems (l : List Item) : String := " ".intercalate (l.map showItem)
 end
 
@@ -149,7 +156,7 @@ def errName : Err → String
   | .uninit => "UB:uninit" | .oob => "UB:oob" | .alloc => "UB:alloc"
 
 def pcName : PC → String
-  | .hdr => "hdr" | .tag => "tag" | .ver => "ver" | .size => "size" | .cls => "cls" | .len => "len"
+  | .hdr => "hdr" | .tag => "tag" | .ver => "ver" | .size => "size" | .cls => "cls" | .pcls => "pcls" | .len => "len"
   | .name => "name" | .ncls => "ncls" | .idx => "idx" | .data => "data"
 
 /-- FNV-1a (32 bit) of the characters; short stand-in for a long read-back in summaries -/
